@@ -364,6 +364,20 @@ class C02(Prop):
             if rng.random() < 0.25:
                 a2 = rng.choice(aks)
                 ops.append(["idraw", self._request(rng, known, env["size"], env["crn"], allow_bad=False), a2] + opt(a2))
+            if known and len(set(probe)) >= 2 and rng.random() < 0.4:
+                # LESSONS.md 12: the same request again on the SAME (initialising) handle at the same time and key - verbatim, reversed,
+                # permuted, a covered sub-request that is not a prefix - after k other operations
+                a3 = rng.choice(aks)
+                u = list(dict.fromkeys(probe))
+                ops.append(["idraw", u, a3] + opt(a3))
+                for _ in range(rng.randint(1, 3)):
+                    for _ in range(rng.choice([0, 0, 1, 2])):
+                        a2 = rng.choice(aks)
+                        ops.append(rng.choice([["draw", rng.randrange(ns), self._request(rng, known, env["size"], env["crn"], allow_bad=False), a2] + opt(a2),
+                                               ["idraw", self._request(rng, known, env["size"], env["crn"], allow_bad=False), a2] + opt(a2)]))
+                    v = rng.choice(["same", "rev", "perm", "sub"])
+                    r2 = list(u) if v == "same" else u[::-1] if v == "rev" else rng.sample(u, len(u)) if v == "perm" else rng.sample(u[1:], rng.randint(1, len(u) - 1))
+                    ops.append(["idraw", r2, a3] + opt(a3))
             if env["mode"] == "sim" and known and rng.random() < 0.3:
                 # some simulants become untracked: they keep their place in the randomness system and are still asked for
                 ops.append(["untrack", rng.sample(known, rng.randint(1, max(1, len(known) // 2)))])
@@ -477,6 +491,12 @@ class C02(Prop):
                         ["idraw", [4, 3], None, {"ix": ix, "form": "kw"}]]
             for ak in AKS[3:]:
                 ops += [["draw", 2, [4, 0, 2], ak, {"form": "kw"}], ["draw", 3, [1], ak, {"form": "ppf"}]]
+            # the same request again on the initialising handle at the same time and key: verbatim, reversed, a covered non-prefix
+            # sub-request, after other operations (LESSONS.md 12); likewise on an ordinary handle through every call form
+            ops += [["idraw", lab, "k"], ["draw", 0, lab, "k"], ["idraw", lab[::-1], "k"], ["idraw", [3, 1], "k", {"form": "ppf"}], ["idraw", lab, "k"],
+                    ["idraw", [5, 4, 3], "k", {"form": "kw"}], ["idraw", lab, None], ["idraw", [2, 0], "k"], ["idraw", lab[1:], "k", {"ix": "range"}],
+                    ["draw", 1, lab, "k", {"form": "ppf"}], ["draw", 0, [5], "k2"], ["draw", 1, lab[::-1], "k", {"form": "ppf"}],
+                    ["draw", 1, [3, 1], "k", {"form": "kw"}], ["draw", 1, lab, "k"]]
             ops += [["untrack", [1, 4]], ["draw", 0, lab, None], ["draw", 0, [4, 1], None, {"form": "kw"}], ["draw", 0, [1], None],
                     ["draw", 0, lab, None, {"ix": "pop", "form": "pos"}], ["birth", 0], ["draw", 0, lab, None],
                     ["step"], ["birth", 0], ["draw", 0, lab[::-1], None], ["birth", 2], ["untrack", [7]],
@@ -815,6 +835,24 @@ class C02(Prop):
                 want_t = sc.expected_tstr(env, o["step"])
                 if o["t"] != want_t:
                     fail("clock-string", f"op #{n} {op}: the clock reads {o['t']!r} after {o['step']} steps, configured: {want_t!r}")
+            if op[0] == "idraw":
+                # a CRN-initialising stream is positional BY DESIGN (excluded from the property), but what it hands out is still fixed:
+                # entry i of the request gets position i of the block seeded by ("crn.init", time, key, seed) - whatever was asked before
+                # on this handle (LESSONS.md 12: repeats, reversed / permuted / sub-requests at the same time and key)
+                rq = op[1]
+                if o["r"] == "ok" and rq and len(rq) <= size:
+                    if o["idx"] != rq:
+                        fail("result-index", f"op #{n} {op}: result indexed by {o['idx']}")
+                    else:
+                        key = "_".join(["crn.init", sc.expected_tstr(env, o["step"]), _ak_str(op[2]), self._seed_of(case, obs, None)])
+                        blk = seeded_block(key)
+                        bad = [i for i, h in enumerate(o["hx"]) if float.fromhex(h) != float(blk[i])]
+                        if bad:
+                            fail("positional-draw-depends-on-history", f"op #{n} {op}: entry {bad[0]} is {float.fromhex(o['hx'][bad[0]])}, position {bad[0]} of the "
+                                 f"block seeded by sha1({key!r}) holds {float(blk[bad[0]])} ({len(bad)} of {len(rq)} differ)")
+                elif o["r"] != "ok" and len(rq) <= size:
+                    fail("draw-refused", f"op #{n} {op}: {o['r']} on the initialising stream")
+                continue
             if op[0] != "draw":
                 continue
             req = op[2]
